@@ -5,10 +5,13 @@
 // `impl<:iface`). This file switches the jobs on and holds the small
 // implementation-side clauses that were added to make them provable
 // (conjoined with the contracts of the other files).
+// Switched on: Checksum, message, fragmentSender (the seam between the
+// fragmenting writer and the connection / relay code). fragmentReceiver: see
+// the last section.
 
 package tchannel
 
-//@ conformance Checksum, message
+//@ conformance Checksum, message, fragmentSender
 
 // ---------------------------------------------------------------------------
 // message: readers only consume (the remaining bytes are a suffix of what was
@@ -114,3 +117,392 @@ package tchannel
 //@   nosafety
 //@   modifies all
 //@   property C02
+
+// ===========================================================================
+// fragmentSender: reqResWriter (inside OutboundCall / InboundCallResponse) and
+// relayFragmentSender refine the interface contract of verif_contracts.go
+// ===========================================================================
+
+// The relay's wrapper is built only by relayFragmentSender.newFragment, around
+// a checksum that is not itself a wrapper: csbase() looks through exactly one
+// level, so the Checksum interface contracts (stated on csbase) hold for it.
+//@ structinv (n *noReleaseChecksum) established newFragment : n.Checksum != nil && !istype(n.Checksum, *noReleaseChecksum)
+
+//@ func (rfs *relayFragmentSender) newFragment(initial bool, checksum Checksum) (wf *writableFragment, err error)
+//@   requires CSplain(checksum)
+//@   property C02 C08
+
+// Configuration the senders rely on, as structure invariants of the objects
+// that implement the interface (reqResWriter is embedded by value in both).
+// A connection's frame pool is fixed by newConnection (withDefaults substitutes
+// the default pool for nil; both handshake functions already require the
+// channel's pool -- the default, an exported variable, included -- to be set).
+//@ structinv (c *Connection) established newConnection : c.opts.FramePool != nil
+//@ func (ch *Channel) newConnection(baseCtx context.Context, conn net.Conn, initialID uint32, outboundHP string, remotePeer PeerInfo, remotePeerAddress peerAddressComponents, events connectionEvents) (c *Connection)
+//@   requires ch.connectionOptions.FramePool != nil
+//@   property C13
+
+//@ func (co ConnectionOptions) withDefaults() (r ConnectionOptions)
+//@   label configured-pool-is-kept
+//@   ensures co.FramePool != nil ==> r.FramePool == co.FramePool
+//@   label default-pool-otherwise
+//@   ensures co.FramePool == nil ==> r.FramePool == DefaultFramePool
+//@   property C19
+
+// (the rest of OutboundCall's invariant is in verif_contracts_inv.go)
+//@ structinv (call *OutboundCall) established beginCall : call.messageForFragment != nil
+
+// An inbound response is wired up once, by handleCallReq, before the call is
+// handed to its goroutine.
+//@ structinv (response *InboundCallResponse) established handleCallReq : response.mex != nil && response.log != nil && response.conn != nil && response.messageForFragment != nil && response.cancel != nil && response.timeNow != nil && response.statsReporter != nil
+//@ func (c *Connection) handleCallReq(frame *Frame) (release bool)
+//@   requires c.timeNow != nil && c.statsReporter != nil
+//@   property C20
+
+// Failing a writer shuts its exchange down, which runs the connection's
+// exchange-removed hook (assumed, T4: verif_contracts.go). None of this touches
+// a fragmenting writer, a running checksum or the senders' flush accounting.
+//@ funcfield messageExchangeSet.onRemoved()
+//@   modifies allbut fragmentingWriter, cs, lastmore, nflushed
+//@ func (mexset *messageExchangeSet) removeExchange(msgID uint32)
+//@   modifies allbut fragmentingWriter, cs, lastmore, nflushed
+//@   property C04 C10
+//@ func (mex *messageExchange) shutdown()
+//@   modifies allbut fragmentingWriter, cs, lastmore, nflushed
+//@   property C04 C10
+//@ func (w *reqResWriter) failed(err error) (e error)
+//@   modifies allbut fragmentingWriter, cs, lastmore, nflushed
+//@   property C01 C10
+
+// The continuation messages have no body.
+//@ iface message.write(w *typed.WriteBuffer) (err error)
+//@   ensures istype(self, *callReqContinue) || istype(self, *callResContinue) ==> w.remaining == old(w.remaining) && w.err == old(w.err)
+
+// messageForFragment (assumed of the four closures the library installs, like the
+// rest of this functype's contract; each clause is proved on the closures
+// themselves below): continuation fragments carry a continuation message.
+//@ functype messageForFragment(initial bool) (m message)
+//@   ensures !initial ==> istype(m, *callReqContinue) || istype(m, *callResContinue)
+
+// reqResWriter.newFragment: a fresh fragment around a fresh pool frame; the
+// continuation fragment is 1 (flags) + 1 (checksum type) + at most 4 bytes in.
+// chunkStart: ghost, defined here (where the fragment is made).
+//@ func (w *reqResWriter) newFragment(initial bool, checksum Checksum) (fragment *writableFragment, err error)
+//@   modifies allbut fragmentingWriter, cs, lastmore, nflushed
+//@   ensures err == nil ==> fresh(fragment)
+//@   label continuation-fragment-has-room
+//@   ensures err == nil && !initial ==> len(fragment.contents.remaining) >= 65513
+//@   defines err == nil ==> chunkStart(fragment) == off(fragment.contents.remaining)
+//@   property C01
+// ASSUMED (the one fact about the library's senders that is not proved): the
+// INITIAL message of a call -- a call req / call res with the handful of
+// transport headers beginCall / handleCallReq put in it -- leaves room for a
+// chunk header in the 65519-byte payload. It is the internal invariant whose
+// violation BeginArgument reports with its explicit panic ("attempting to begin
+// an argument in a fragment with only N bytes available"). The size of the
+// header block is not bounded by anything the engine can follow (a map range
+// has no iteration bound), so a call req with ~130 maximal headers would
+// violate it; the library never builds one (at most five headers).
+//@ func (w *reqResWriter) newFragment(initial bool, checksum Checksum) (fragment *writableFragment, err error)
+//@   defines err == nil && initial ==> len(fragment.contents.remaining) > 2
+//@   property C01
+
+// flushFragment: nflushed(sender) counts the calls, lastmore(sender) is the
+// more-fragments bit of the fragment handed over (ghost accounting of the
+// interface, defined here; that the frame queued is this fragment's frame is
+// the atsend clause in verif_contracts.go).
+//@ func (w *reqResWriter) flushFragment(fragment *writableFragment) (err error)
+//@   modifies allbut fragmentingWriter, cs
+//@   defines nflushed(w) == old(nflushed(w)) + 1 && lastmore(w) == old(u8at(fragment.flagsRef, 0)) % 2
+//@   property C01 C10
+
+//@ func (response *InboundCallResponse) doneSending()
+//@   modifies allbut fragmentingWriter, cs, lastmore, nflushed
+//@   property C01 C12
+
+// ---------------------------------------------------------------------------
+// relayFragmentSender
+// ---------------------------------------------------------------------------
+
+// A lazily parsed call req keeps the frame it was parsed from; a relay fragment
+// sender is wired up once, by newFragmentSender.
+//@ structinv (cr *lazyCallReq) established newLazyCallReq : cr.Frame != nil
+//@ structinv (rfs *relayFragmentSender) established newFragmentSender : rfs.framePool != nil && rfs.callReq != nil && rfs.frameReceiver != nil && rfs.sentReporter != nil && rfs.failRelayItemFunc != nil
+//@ func (r *Relayer) newFragmentSender(dstRelay frameReceiver, cr *lazyCallReq, origID uint32, sentReporter sentBytesReporter) (rfs *relayFragmentSender)
+//@   requires dstRelay != nil && sentReporter != nil
+//@   ensures fresh(rfs) && rfs.callReq == cr && rfs.frameReceiver == dstRelay && rfs.sentReporter == sentReporter && rfs.origID == origID
+//@   property C08
+
+// newFragment: the fragment wraps a fresh pool frame; its checksum is the
+// no-release wrapper around the given (plain) checksum; only the initial
+// fragment folds bytes (arg1, which it writes itself) into that checksum.
+//@ func (rfs *relayFragmentSender) newFragment(initial bool, checksum Checksum) (wf *writableFragment, err error)
+//@   ensures err == nil ==> fresh(wf) && WF(wf) && csbase(wf.checksum) == checksum && wf.contents.err == nil
+//@   label continuation-fragment-has-room
+//@   ensures err == nil && !initial ==> len(wf.contents.remaining) >= 65513
+//@   label continuation-fragment-leaves-the-checksum-alone
+//@   ensures !initial ==> cs(checksum) == old(cs(checksum))
+//@   defines err == nil ==> chunkStart(wf) == off(wf.contents.remaining)
+//@   property C01 C02
+
+// flushFragment: the pool frame is handed to the destination or released; the
+// call req frame being re-fragmented stays with the caller.
+//@ iface frameReceiver.Receive(f *Frame, fType frameType) (sent bool, failureReason string)
+//@   modifies allbut fragmentingWriter, cs
+//@   ensures TokensKeptBut(f)
+//@ funcfield relayFragmentSender.failRelayItemFunc(items *relayItems, id uint32, failure string, err error)
+//@   modifies allbut fragmentingWriter, cs
+//@ func (rfs *relayFragmentSender) flushFragment(wf *writableFragment) (err error)
+//@   requires rfs.callReq != nil && rfs.callReq.Frame != nil && own(rfs.callReq.Frame) == 1 && wf.frame != rfs.callReq.Frame
+//@   modifies allbut fragmentingWriter, cs
+//@   label call-req-frame-stays-with-the-caller
+//@   ensures own(rfs.callReq.Frame) == 1
+//@   defines nflushed(rfs) == old(nflushed(rfs)) + 1 && lastmore(rfs) == old(u8at(wf.flagsRef, 0)) % 2
+//@   property C08 C12
+// ASSUMED (second and last unproved fact, the relay's counterpart of the one on
+// reqResWriter.newFragment): the INITIAL fragment the relay rebuilds leaves room
+// for a chunk header. It holds because everything written here (header block,
+// checksum type, checksum, arg1) was read from a frame that also held arg2's and
+// arg3's chunk headers (the call req is re-fragmented only when arg2 is not
+// fragmented) and the checksum is of the call req's own type or the null
+// checksum; carrying those facts to this point needs the lazy call req's offsets
+// (LCR is a precondition, not an invariant: a failed parse leaves a partial
+// object) and the frame header across the destination's Receive.
+//@ func (rfs *relayFragmentSender) newFragment(initial bool, checksum Checksum) (wf *writableFragment, err error)
+//@   defines err == nil && initial ==> len(wf.contents.remaining) > 2
+//@   property C01
+
+// (backing of the two clauses added to frameReceiver.Receive above, on the one
+// implementation the library has)
+//@ func (r *Relayer) Receive(f *Frame, fType frameType) (sent bool, failureReason string)
+//@   modifies allbut fragmentingWriter, cs
+//@   label no-other-token-is-lost
+//@   ensures TokensKeptBut(f)
+//@   property C12
+// (keep-lists along Receive / failRelayItem: nothing on the relay's send and
+// failure paths touches a fragmenting writer or a running checksum)
+//@ func (r *relayItems) Get(id uint32, stopTimeout bool) (item relayItem, stopped bool, found bool)
+//@   modifies allbut fragmentingWriter, cs
+//@   property C12
+//@ func (r *Relayer) failRelayItem(items *relayItems, id uint32, reason string, err error)
+//@   modifies allbut fragmentingWriter, cs
+//@   property C12
+//@ func (r *Relayer) finishRelayItem(items *relayItems, id uint32)
+//@   modifies allbut fragmentingWriter, cs
+//@   property C12
+//@ func (r *relayItems) Entomb(id uint32, deleteAfter time.Duration) (item relayItem, ok bool)
+//@   modifies allbut fragmentingWriter, cs
+//@   property C12
+//@ func (r *relayItems) Delete(id uint32) (item relayItem, ok bool)
+//@   modifies allbut fragmentingWriter, cs
+//@   property C12
+//@ func (r *Relayer) decrementPending()
+//@   modifies allbut fragmentingWriter, cs
+//@   property C12
+//@ func (c *Connection) SendSystemError(id uint32, span Span, err error) (sendErr error)
+//@   modifies allbut fragmentingWriter, cs
+//@   property C12
+// (checkExchanges is the function installed as the exchange sets' onRemoved
+// hook: its verified frame backs every name added to that hook's keep-list in
+// this file; the channel-level event callbacks it may run are assumed, T4)
+//@ func (c *Connection) checkExchanges()
+//@   modifies allbut fragmentingWriter, cs, lastmore, nflushed, fragmentingReader, readableFragment, typed.ReadBuffer, nrecv, doneCalls, doneCode, fragErrIsMsg, fragErrCode, fragErrMsg, SystemError, reqResReader, InboundCall, OutboundCallResponse
+//@   property C12
+//@ func (c *Connection) close(fields ...LogField) (err error)
+//@   modifies allbut fragmentingWriter, cs, lastmore, nflushed, fragmentingReader, readableFragment, typed.ReadBuffer, nrecv, doneCalls, doneCode, fragErrIsMsg, fragErrCode, fragErrMsg, SystemError, reqResReader, InboundCall, OutboundCallResponse
+//@   property C12
+//@ funcfield connectionEvents.OnCloseStateChange(c *Connection)
+//@   modifies allbut fragmentingWriter, cs, lastmore, nflushed, fragmentingReader, readableFragment, typed.ReadBuffer, nrecv, doneCalls, doneCode, fragErrIsMsg, fragErrCode, fragErrMsg, SystemError, reqResReader, InboundCall, OutboundCallResponse
+//@ funcfield connectionEvents.OnExchangeUpdated(c *Connection)
+//@   modifies allbut fragmentingWriter, cs, lastmore, nflushed, fragmentingReader, readableFragment, typed.ReadBuffer, nrecv, doneCalls, doneCode, fragErrIsMsg, fragErrCode, fragErrMsg, SystemError, reqResReader, InboundCall, OutboundCallResponse
+
+// The four closures installed as messageForFragment satisfy the functype's
+// contract (checked here on each closure; the engine has no conformance jobs
+// for func types): never nil, and a continuation message for a continuation
+// fragment.
+//@ closure (c *Connection) beginCall 1
+//@   captures call != nil
+//@   modifies nothing
+//@   ensures result != nil && (!initial ==> istype(result, *callReqContinue))
+//@   property C01
+//@ closure (c *Connection) beginCall 2
+//@   captures response != nil
+//@   modifies nothing
+//@   ensures result != nil && (!initial ==> istype(result, *callResContinue))
+//@   property C01
+//@ closure (c *Connection) handleCallReq 1
+//@   captures response != nil
+//@   modifies nothing
+//@   ensures result != nil && (!initial ==> istype(result, *callResContinue))
+//@   property C01
+//@ closure (c *Connection) handleCallReq 2
+//@   modifies nothing
+//@   ensures result != nil && istype(result, *callReqContinue)
+//@   property C01
+
+// Two facts about the fragments the relay builds that the code comments insist
+// on: the flags byte is copied from the call req being re-fragmented (so that
+// the destination learns that continuation frames follow), and the fragment
+// holds the running checksum through the no-release wrapper (finishing the last
+// fragment must not return the relayer's checksum to the pool).
+//@ func (rfs *relayFragmentSender) newFragment(initial bool, checksum Checksum) (wf *writableFragment, err error)
+//@   label flags-copied-from-the-call-req
+//@   ensures err == nil ==> u8at(wf.flagsRef, 0) == old(u8at(rfs.callReq.Payload, 0))
+//@   label fragment-does-not-release-the-running-checksum
+//@   ensures err == nil ==> istype(wf.checksum, *noReleaseChecksum)
+//@   property C08
+
+// ===========================================================================
+// fragmentReceiver -- NOT switched on. With the clauses below every obligation
+// of its five conformance jobs (reqResReader.recvNextFragment inside InboundCall
+// and OutboundCallResponse, InboundCall.doneReading, OutboundCallResponse.
+// doneReading) is discharged under `govc -conform` EXCEPT three:
+//   recvNextFragment (x2)  `receivers-never-report-io.EOF`: the reader may return
+//       the error another goroutine stored in the exchange's errNotifier
+//       (mex.errCh.err). It is never io.EOF (connectionError / protocolError wrap
+//       what they notify in a SystemError, shutdown notifies errMexShutdown), but
+//       errNotifier is a by-value field written through its own pointer method:
+//       a structure invariant on it is rejected, and one on messageExchange is
+//       accepted but never re-checked at the store in Notify (tried; unsound).
+//   OutboundCallResponse.doneReading  the precondition of RequestState.HasRetries
+//       (`rs != nil ==> rs.retryOpts != nil`) does not follow from anything
+//       beginCall checks: a REAL DEFECT (a caller-supplied zero RequestState makes
+//       a failed call panic; /tmp/cw/fs_defect_1_test.go.txt).
+// ===========================================================================
+
+// An exchange's frame pool is the connection's (never nil: Connection invariant
+// above); with it MexOK(mex) follows from the structure invariants alone.
+//@ structinv (mex *messageExchange) established newExchange : mex.framePool != nil
+//@ func (mexset *messageExchangeSet) newExchange(ctx context.Context, ctxCancel context.CancelFunc, framePool FramePool, msgType messageType, msgID uint32, bufferSize int) (mex *messageExchange, err error)
+//@   requires framePool != nil
+//@   property C04 C12
+
+// The reading halves of a call are wired up once, like the writing halves.
+// (guarded by the reader field, which is set last: handleCallReq allocates the
+// call object before the exchange exists and drops it on its refusal paths)
+//@ structinv (call *InboundCall) established handleCallReq : call.contents != nil ==> call.mex != nil && call.messageForFragment != nil && call.log != nil
+//@ structinv (response *OutboundCallResponse) established beginCall : response.mex != nil && response.messageForFragment != nil && response.log != nil && response.timeNow != nil && response.statsReporter != nil
+//@ func (c *Connection) beginCall(ctx context.Context, serviceName, methodName string, callOptions *CallOptions) (call *OutboundCall, err error)
+//@   requires c.statsReporter != nil
+//@   property C14
+
+// Ghost accounting of the receiver interface, defined by the implementations:
+// doneCalls counts doneReading calls, doneCode is the code of the error reported.
+//@ func (call *InboundCall) doneReading(unexpected error)
+//@   modifies doneCalls(call), doneCode(call)
+//@   defines doneCalls(call) == old(doneCalls(call)) + 1 && doneCode(call) == GetSystemErrorCode(unexpected)
+//@   property C20
+// (the first precondition is NOT provable from anything beginCall checks: a
+// caller-supplied zero RequestState has no retry options, and a failed call
+// then panics here -- /tmp/cw/fs_defect_1_test.go.txt)
+//@ func (response *OutboundCallResponse) doneReading(unexpected error)
+//@   requires response.requestState != nil ==> response.requestState.retryOpts != nil
+//@   modifies allbut fragmentingReader, readableFragment, cs, nrecv, fragErrIsMsg, fragErrCode, fragErrMsg, SystemError
+//@   defines doneCalls(response) == old(doneCalls(response)) + 1 && doneCode(response) == GetSystemErrorCode(unexpected)
+//@   property C20
+//@ funcfield OutboundCallResponse.timeNow() (t time.Time)
+//@   modifies nothing
+// (shutting an exchange down touches no reader, fragment, checksum or receiver accounting)
+//@ funcfield messageExchangeSet.onRemoved()
+//@   modifies allbut fragmentingReader, readableFragment, typed.ReadBuffer, nrecv, doneCalls, doneCode, fragErrIsMsg, fragErrCode, fragErrMsg, SystemError
+//@ func (mexset *messageExchangeSet) removeExchange(msgID uint32)
+//@   modifies allbut fragmentingReader, readableFragment, typed.ReadBuffer, nrecv, doneCalls, doneCode, fragErrIsMsg, fragErrCode, fragErrMsg, SystemError
+//@   property C04 C10
+//@ func (mex *messageExchange) shutdown()
+//@   modifies allbut fragmentingReader, readableFragment, typed.ReadBuffer, nrecv, doneCalls, doneCode, fragErrIsMsg, fragErrCode, fragErrMsg, SystemError
+//@   property C04 C10
+
+// reqResReader.recvNextFragment: nrecv counts the calls; fragErr* record an
+// error frame handed over as an errorMessage value (ghost accounting of the
+// interface, defined here). The initial fragment stored by handleCallReq is
+// handed over once, as parsed (precondition: it is a parsed, not yet released
+// fragment while it is stored), and the slot is empty afterwards.
+//@ func (r *reqResReader) recvNextFragment(initial bool) (fragment *readableFragment, err error)
+//@   requires r.initialFragment != nil ==> RF(r.initialFragment) && !r.initialFragment.isDone
+//@   label a-fragment-handed-over-is-parsed-and-not-released
+//@   ensures err == nil ==> RF(fragment) && !fragment.isDone
+//@   label initial-fragment-is-handed-over-once
+//@   ensures err == nil ==> r.initialFragment == nil
+//@   defines nrecv(r) == old(nrecv(r)) + 1
+//@   defines fragErrIsMsg(r) == ite(err != nil && istype(err, errorMessage), 1, 0)
+//@   defines istype(err, errorMessage) ==> fragErrCode(r) == err.(errorMessage).errCode && fragErrMsg(r) == err.(errorMessage).message
+//@   property C01 C12
+//@ func (r *reqResReader) recvNextFragment(initial bool) (fragment *readableFragment, err error)
+//@   modifies allbut fragmentingReader, cs, doneCalls, doneCode
+//@   property C01
+
+// Waiting on the exchange, parsing the frame and failing the reader touch no
+// reader, running checksum or doneReading accounting, nor the (embedded)
+// reqResReader state of the call objects. The cancel hook of the exchange set
+// is assumed not to (T4, like the rest of its contract in verif_contracts.go).
+//@ funcfield messageExchangeSet.onCancel(id uint32)
+//@   modifies allbut fragmentingReader, cs, doneCalls, doneCode, reqResReader, InboundCall, OutboundCallResponse
+//@ func (mex *messageExchange) onCtxErr(err error)
+//@   modifies allbut fragmentingReader, cs, doneCalls, doneCode, reqResReader, InboundCall, OutboundCallResponse
+//@   property C14
+//@ func (mex *messageExchange) recvPeerFrame() (f *Frame, err error)
+//@   modifies allbut fragmentingReader, cs, doneCalls, doneCode, reqResReader, InboundCall, OutboundCallResponse
+//@   property C20
+//@ func (mex *messageExchange) recvPeerFrameOfType(msgType messageType) (f *Frame, err error)
+//@   modifies allbut fragmentingReader, cs, doneCalls, doneCode, reqResReader, InboundCall, OutboundCallResponse
+//@   property C20
+//@ func parseInboundFragment(framePool FramePool, frame *Frame, message message) (fragment *readableFragment, err error)
+//@   modifies allbut fragmentingReader, doneCalls, doneCode, reqResReader, InboundCall, OutboundCallResponse
+//@   property C03
+
+// ReceiverCfg: the configuration the library's receivers rely on (structure
+// invariants of InboundCall / OutboundCallResponse, hence stable; by type test,
+// vacuous for other implementations). InitOK: the initial fragment stored by
+// handleCallReq is, while stored, a parsed fragment that was not released;
+// InitGone: it has been handed over.
+//@ pred ReceiverCfg(s fragmentReceiver) :=
+//@        (istype(s, *InboundCall) ==> s.(*InboundCall).mex != nil && s.(*InboundCall).messageForFragment != nil && s.(*InboundCall).log != nil) &&
+//@        (istype(s, *OutboundCallResponse) ==> s.(*OutboundCallResponse).mex != nil && s.(*OutboundCallResponse).messageForFragment != nil && s.(*OutboundCallResponse).log != nil)
+//@ pred InitOK(s fragmentReceiver) :=
+//@        (istype(s, *InboundCall) && s.(*InboundCall).initialFragment != nil ==> RF(s.(*InboundCall).initialFragment) && !s.(*InboundCall).initialFragment.isDone) &&
+//@        (istype(s, *OutboundCallResponse) && s.(*OutboundCallResponse).initialFragment != nil ==> RF(s.(*OutboundCallResponse).initialFragment) && !s.(*OutboundCallResponse).initialFragment.isDone)
+//@ pred InitGone(s fragmentReceiver) :=
+//@        (istype(s, *InboundCall) ==> s.(*InboundCall).initialFragment == nil) &&
+//@        (istype(s, *OutboundCallResponse) ==> s.(*OutboundCallResponse).initialFragment == nil)
+//@ iface fragmentReceiver.recvNextFragment(intial bool) (f *readableFragment, err error)
+//@   requires ReceiverCfg(self) && InitOK(self)
+//@   ensures err == nil ==> InitGone(self)
+
+// The reader passes the receiver's preconditions on (RcvPre): the receiver is
+// configured, and its initial-fragment slot is intact while the reader has not
+// fetched a fragment yet, empty once it has. The release callback of a
+// fragment (assumed, like the rest of its contract; the one closure installed,
+// parseInboundFragment$1, is verified to touch the frame token only) leaves the
+// call objects alone.
+//@ pred RcvPre(r *fragmentingReader) := ReceiverCfg(r.receiver) && (r.curFragment == nil ==> InitOK(r.receiver)) && (r.curFragment != nil ==> InitGone(r.receiver))
+//@ funcfield readableFragment.onDone()
+//@   modifies allbut OutboundCallResponse
+//@ func (f *readableFragment) done()
+//@   modifies allbut OutboundCallResponse
+//@   property C12
+//@ func (r *fragmentingReader) recvAndParseNextFragment(initial bool) (err error)
+//@   requires RcvPre(r)
+//@   ensures err == nil ==> RcvPre(r)
+//@   loop 0 invariant InitGone(r.receiver) && ReceiverCfg(r.receiver)
+//@   property C01
+//@ func (r *fragmentingReader) BeginArgument(last bool) (err error)
+//@   requires RcvPre(r)
+//@   property C01
+//@ func (r *fragmentingReader) Read(b []byte) (n int, err error)
+//@   requires RcvPre(r)
+//@   loop 0 invariant RcvPre(r)
+//@   property C01
+//@ func (r *fragmentingReader) Close() (err error)
+//@   requires RcvPre(r)
+//@   loop 0 invariant RcvPre(r)
+//@   property C01
+
+// (Connection.onCancel is the function installed as the outbound exchange set's
+// onCancel hook: its verified frame backs the names added to that hook's
+// keep-list above; connectionError on the way: likewise)
+//@ func (c *Connection) onCancel(msgID uint32)
+//@   modifies allbut fragmentingReader, cs, doneCalls, doneCode, reqResReader, InboundCall, OutboundCallResponse
+//@   property C14
+//@ func (c *Connection) connectionError(site string, err error) (out error)
+//@   modifies allbut fragmentingReader, cs, doneCalls, doneCode, reqResReader, InboundCall, OutboundCallResponse
+//@   property C12
